@@ -104,10 +104,12 @@ func (cw *CobsWrapper) Read(b []byte) (int, error) {
 	// current location in read buffer
 	var cur int
 
+	// foundStart is set once a non-zero byte of the current packet has been seen,
+	// in the leftover bytes or in what is read from the device
+	foundStart := false
+
 	// first, process any leftover bytes looking for packets
 	if cw.readLeftover.Len() > 0 {
-		foundStart := false
-
 		lb := cw.readLeftover.Bytes()
 		for i := 0; i < len(lb); i++ {
 			if !foundStart {
@@ -123,14 +125,12 @@ func (cw *CobsWrapper) Read(b []byte) (int, error) {
 			}
 		}
 
-		// write leftover bytes to beginning of buffer
-		bBuf := bytes.NewBuffer(b)
-		c, _ := bBuf.Write(cw.readLeftover.Bytes())
+		// no complete packet yet: move the leftover bytes to the beginning
+		// of the read buffer and continue reading from the device
+		c, _ := cw.readLeftover.Read(b)
 
 		cur += c
 	}
-
-	foundStart := false
 
 	for {
 		c, err := cw.dev.Read(b[cur:])
